@@ -19,7 +19,7 @@ RULE = ('the whole domain the property names: every date from 1900-01-01 to 2100
         'indexes in [-6, 6], upper/lower/length/splitcomp/joinstr/findfirst/grep; all decimals with <= 3 digits and exponent in '
         '[-3, 1] x abs/neg/round/safediv; cast inputs of every type from a lexicon.  Functions are called through the registry '
         'objects (NULL-strict wrapper included) and, sampled, through SQL.  Non-trivial = result is not NULL; distinct = distinct call.')
-ASSUMPTIONS = ['regex patterns are literal (grep/findfirst); maxwidth (textwrap.shorten) and parse_date (dateutil) are not modelled',
+ASSUMPTIONS = ['regex patterns are literal (grep/findfirst); parse_date (dateutil) is not modelled; maxwidth (textwrap.shorten) is modelled for texts without hyphens (no break_on_hyphens)',
                'value-domain exceptions (OverflowError on dates outside 1..9999, IndexError of splitcomp) are compared as classes']
 
 LO = datetime.date(1900, 1, 1).toordinal()
@@ -185,6 +185,15 @@ def string_layer(ctx):
     for delim in (':', ' ', 'a'):
         for i in range(-5, 6):
             fnmap(ctx, 'splitcomp', [], [delim, i], strings, label='splitcomp')
+    # maxwidth(x, n) = textwrap.shorten(x, n): every string of length <= 4 over the alphabet and longer texts (long words,
+    # runs of white space of every kind) x every width from -1 to 14
+    texts = strings + ['lunch with the team at the usual place', 'a  b\tc\nd', '  leading and trailing  ', 'supercalifragilistic',
+                       'ab supercalifragilistic cd', 'x' * 11 + ' y', 'aaaa bbbb cccc', 'aaaaa bbbbb', 'a b c d e f g h i j',
+                       'word [...] word', '[...]', 'abcde', 'abcdef', 'abcd efgh', '\x0b\x0c a \r b', 'Rent, March (2nd half)']
+    for n in range(-1, 15):
+        fnmap(ctx, 'maxwidth', [], [n], texts if ctx.thorough() or n % 2 == 0 or n < 8 else texts[300:], label='maxwidth')
+    for n in (20, 48, 80):
+        fnmap(ctx, 'maxwidth', [], [n], texts[300:], label='maxwidth')
     sets = [set(), set(['a']), set(['b', 'a', 'Ba']), set(['trip', 'work', 'x'])]
     fnmap(ctx, 'joinstr', [], [], [s for s in sets if len(s) <= 1], label='joinstr')
     for pat in ('a', 'B', 'tr', 'x', 'zz'):
